@@ -10,6 +10,8 @@ mod cfg;
 mod json;
 mod mon;
 mod mon_hist;
+mod mon_set;
+mod mon_twin;
 mod rng;
 mod run;
 mod sig;
@@ -20,7 +22,15 @@ static GLOBAL: alloc::Counting = alloc::Counting;
 use mon::{Ctx, Monitor, Tier};
 
 fn monitors() -> Vec<Box<dyn Monitor>> {
-    vec![Box::new(mon_hist::Hist)]
+    vec![
+        Box::new(mon_hist::Hist),
+        Box::new(mon_twin::Reset),
+        Box::new(mon_twin::Chan),
+        Box::new(mon_twin::Malformed),
+        Box::new(mon_twin::Wrap),
+        Box::new(mon_twin::Prec),
+        Box::new(mon_set::Setters),
+    ]
 }
 
 fn main() {
